@@ -35,11 +35,12 @@ Status(p, i) ==
   CASE p = "fix1"   -> IF i = 1 THEN <<"fixed", "fixed">> ELSE FF
     [] p = "fix2"   -> IF i <= 2 THEN <<"fixed", "fixed">> ELSE FF
     [] p = "constr" -> <<"constr", "constr">>
+    [] p = "pconstr" -> IF i <= 2 THEN <<"constr", "constr">> ELSE FF      \* a free network whose datum is carried by two of its points only
     [] p = "split"  -> IF i = 1 THEN <<"fixed", "free">> ELSE IF i = 2 THEN <<"free", "fixed">> ELSE FF
     [] p = "mixed"  -> IF i = 1 THEN <<"fixed", "fixed">> ELSE IF i = 2 THEN <<"free", "fixed">> ELSE IF i = 3 THEN <<"constr", "free">> ELSE <<"free", "constr">>
     [] p = "hfix"   -> IF i = 1 THEN <<"fixed", "free">> ELSE FF        \* the heights must come from observed heights
     [] OTHER        -> FF                                               \* "xyzdatum": the datum comes from observed coordinates
-Patterns == {"fix1", "fix2", "constr", "split", "mixed", "hfix", "xyzdatum"}
+Patterns == {"fix1", "fix2", "constr", "pconstr", "split", "mixed", "hfix", "xyzdatum"}
 DistSets == << <<>>, << <<1, 2>>, <<3, 2>> >>, << <<2, 1>>, <<2, 3>>, <<3, 1>> >> >>
 HeightSets == << <<>>, <<1>>, <<2, 3>> >>
 HdiffSets == << <<>>, << <<1, 2>>, <<2, 3>> >> >>
@@ -57,10 +58,12 @@ Choose == /\ net.k = 0
                /\ \E noise \in 0..2, perm \in 0..3, ds \in 1..3, hs \in 1..3, dh \in 1..2, displ \in 0..1, zs \in 1..2, as \in 1..3, xs \in 1..3, idh \in 0..1, gross \in 0..2 :
                     /\ (status = "xyzdatum" <=> xs > 1)
                     /\ (status = "hfix" => hs > 1)                  \* without observed heights the translation along the vertical stays free
-                    /\ (status = "constr" => displ = 0 /\ hs = 1 /\ dh = 1 /\ zs = 1 /\ as = 1)
+                    /\ (status = "constr" => displ = 0)
+                    /\ (status \in {"constr", "pconstr"} => hs = 1 /\ dh = 1 /\ zs = 1 /\ as = 1)
                          \* the datum of a constrained network is its given coordinates; ellipsoidal heights, height differences and
                          \* angles referred to the local vertical depend (weakly) on the position and would change the defect
-                    /\ ((noise * 13 + perm * 17 + ds * 23 + hs * 29 + dh * 31 + displ * 37 + zs * 41 + as * 43 + xs * 53 + idh * 59 + np + cov + Seed) % Keep2 = 0 \/ gross > 0)
+                    /\ ((noise * 13 + perm * 17 + ds * 23 + hs * 29 + dh * 31 + displ * 37 + zs * 41 + as * 43 + xs * 53 + idh * 59 + np + cov + Seed) % Keep2 = 0 \/ gross > 0
+                          \/ (status = "pconstr" /\ noise = 0 /\ ds = 1 /\ xs = 1 /\ idh = 0 /\ perm = 0))      \* always generated
                     /\ (idh = 1 => ds > 1 \/ zs > 1)
                     /\ (gross > 0 => noise = 0 /\ status \in {"fix1", "fix2"} /\ displ = 0 /\ ds = 1 /\ hs = 1 /\ dh = 1 /\ zs = 1 /\ as = 1 /\ idh = 0)
                     /\ (gross = 1 => extra # {})            \* a redundant vector is gross: it is rejected, the rest reproduces the network
@@ -77,7 +80,7 @@ Choose == /\ net.k = 0
                                dropped |-> IF gross = 2 THEN np ELSE 0,             \* the point whose only tie is rejected has no unknowns left
                                equations |-> 3 * ((np - 1) + Cardinality(extra)) - (IF gross > 0 THEN 3 ELSE 0) + Len(DistSets[ds]) + Len(HeightSets[hs]) + Len(HdiffSets[dh])
                                              + Len(ZenSets[zs]) + Len(AngSets[as]) + 3 * Len(XyzSets[xs]),
-                               defect |-> IF status = "constr" THEN 3 ELSE 0]
+                               defect |-> IF status \in {"constr", "pconstr"} THEN 3 ELSE 0]
 Next == Choose
 Spec == Init /\ [][Next]_net
 Emit == net.k = 1 => PrintT("CASE " \o ToJson(net @@ [redundancy |-> net.equations - net.parameters + net.defect]))
